@@ -56,8 +56,6 @@ def known_aliquot_whitespace_family(prefix, unit):
 def known_family(prefix, unit):
     if known_aliquot_whitespace_family(prefix, unit):
         return 'C16-aliquot-whitespace'
-    if known_intervener_family(prefix, unit):
-        return 'C16-intervener-backtracking'
     if known_pm_whitespace_family(prefix, unit):
         return 'C16-pm-whitespace'
     return None
@@ -145,8 +143,7 @@ def structural(k):
     ]
 
 
-STRUCTURAL_KNOWN = {'sec_list_then_tr': 'C16-section-list-before-twprge', 'trs_sec_list_then_tr': 'C16-section-list-before-twprge',
-                    'range_product': 'C16-range-product'}
+STRUCTURAL_KNOWN = {'range_product': 'C16-range-product'}
 
 
 def units_from_patterns(rng):
@@ -185,7 +182,7 @@ PAIR_TOKENS = ['of', 'NE', 'SW', 'N½', 'NE¼', 'N', ' ', '\n', '\t', ',', '.', 
                'f', '1', '2', 'Lot', 'Sec', 'L', 'T', 'R', 'W', 'P', 'M', '(', ')', '/', '4', 'e', 's', 'h', 'i', 'a', 'r']
 
 
-KNOWN_EXEMPLARS = [('T154N-R97W Sec 14: NE/4', ' \n', 'x'), ('T154N-R97W Sec 14', ' -', ''), ('T154N-R97W', ' ', ' P.M.')]
+KNOWN_EXEMPLARS = [('T154N-R97W Sec 14: NE/4', ' \n', 'x'), ('T154N-R97W', ' ', ' P.M.')]
 
 
 def run(ctx):
